@@ -147,6 +147,23 @@ fn model_case(text: &[u8], model: &Model<'_>, names: &Names, rng: &mut Rng, rep:
                 }
             }
         }
+        // what a caller may do next: feed the (expected) output back in. Its line kinds are not
+        // known by construction, so only mapper == cache and "no line lost" are checked.
+        {
+            let (a, b) = (m.text(&exp), cache.text(&exp));
+            rep.count("evaluations", 2);
+            rep.count("outputs_fed_back_in", 1);
+            let lines_in = exp.lines().count();
+            let lost = |r: &Result<String, String>| r.as_ref().map_or(true, |s| s.lines().count() < lines_in);
+            if a != b || lost(&a) {
+                let mut d = mapping_detail(text, "");
+                d.set("input", Json::s(exp.clone()));
+                d.set("mapper", Json::s(format!("{a:?}")));
+                d.set("cache", Json::s(format!("{b:?}")));
+                let what = if a != b { "mapper and cache differ" } else { "lines were lost" };
+                rep.violation(case_idx, "text-model", &format!("remapping an already remapped trace: {what}"), d);
+            }
+        }
         if rep.wants_sample() && rewritten > 0 && passed > 0 {
             let mut s = Json::obj();
             s.set("input", Json::s(input.clone()));
